@@ -189,6 +189,19 @@ def rule_r1(p, res):
             for n in walk_own(f.node):
                 if isinstance(n, ast.If) and norm(n.test) == "isinstance(%s, Path)" % fpn:
                     r.check(g.reaches(conv[0], n) and not g.reaches(n, conv[0]), f, n, "the str->Path conversion must precede the Path dispatch")
+    # --- the path normalisation / validation must be evaluated afresh on every call (no memoisation: the
+    #     working directory and the file system change between calls)
+    for q in ("menpo.io.utils._norm_path", OUT + "_validate_filepath", OUT + "_validate_and_get_export_func", OUT + "_parse_and_validate_extension"):
+        fn = p.func(q)
+        r.instance(fn)
+        decs = fn.decorators()
+        bad = [d_ for d_ in decs if d_.split(".")[-1] in ("lru_cache", "cache", "cached", "memoize", "memoized")]
+        r.check(not bad, fn, fn.node, "%s is memoised (%s): a relative path keeps resolving against the working directory of the first call, so the overwrite check looks at another "
+                "file than the one that is written" % (fn.short, ", ".join(bad)), {"function": fn.short, "decorators": decs})
+    npf = p.func("menpo.io.utils._norm_path")
+    rets_np = returns_of(npf.node)
+    r.check(len(rets_np) == 1 and norm(rets_np[0].value) == "Path(os.path.abspath(os.path.normpath(os.path.expandvars(os.path.expanduser(str(%s))))))" % npf.params[0], npf, npf.node,
+            "_norm_path must resolve user, variables and relative parts to an absolute path")
     # --- nobody else writes files
     for f in p.all_functions():
         if f.module.name.startswith("menpo.io.output.base") or f.module.name in ("menpo._version",):
@@ -490,6 +503,7 @@ WITNESSES = [
             rule="C16.R1", construct="_export"),
     Witness("C16.W12", "menpo/io/output/base.py", "export_image", "_export(image, fp, image_types, extension, overwrite)", "_export(image, fp, image_types, None, overwrite)",
             rule="C16.G1", construct="export_image", note="generic dropped-option rule"),
+    Witness("C16.W13", "menpo/io/utils.py", "", "def _norm_path(filepath):", "import functools\n\n\n@functools.lru_cache(maxsize=None)\ndef _norm_path(filepath):", rule="C16.R1", construct="_norm_path", note="seeded change R2-C16-A"),
     Witness("C16.T1", "menpo/io/output/base.py", "_export", "if isinstance(fp, str):\n        fp = Path(fp)",
             "if isinstance(fp, str):\n        fp = Path(fp)\n    n_kwargs = len(exporter_kwargs)", kind="T"),
 ]
